@@ -316,12 +316,30 @@ func (s vset) build(viaBuilder bool) *pos.Validators {
 		}
 		return b.Build()
 	}
+	// the arrays are handed over in canonical order when the number of members is even (a caller that sorted them), in
+	// the drawn order otherwise; afterwards the caller reuses its arrays for something else
+	order := make([]int, len(s.IDs))
+	for i := range order {
+		order[i] = i
+	}
+	if len(order)%2 == 0 {
+		sort.SliceStable(order, func(a, b int) bool {
+			if s.W[order[a]] != s.W[order[b]] {
+				return s.W[order[a]] > s.W[order[b]]
+			}
+			return s.IDs[order[a]] < s.IDs[order[b]]
+		})
+	}
 	ids := make([]idx.ValidatorID, len(s.IDs))
 	ws := make([]pos.Weight, len(s.IDs))
-	for i := range s.IDs {
-		ids[i], ws[i] = idx.ValidatorID(s.IDs[i]), pos.Weight(s.W[i])
+	for k, i := range order {
+		ids[k], ws[k] = idx.ValidatorID(s.IDs[i]), pos.Weight(s.W[i])
 	}
-	return pos.ArrayToValidators(ids, ws)
+	v := pos.ArrayToValidators(ids, ws)
+	for k := range ids {
+		ids[k], ws[k] = idx.ValidatorID(0xdead0000+uint32(k)), 1
+	}
+	return v
 }
 
 // buildDrawn builds the set through the builder, the array constructor, or by decoding an RLP list of
@@ -511,6 +529,13 @@ func TestC11Counter(t *testing.T) {
 		byIdx := make([]int, n) // idx -> position in s
 		for i, k := range im {
 			byIdx[k] = i
+		}
+		// the next epoch's set is derived from this one (a mutable copy, edited and built): the set itself is read-only
+		if rapid.IntRange(0, 2).Draw(t, "nextSetDerived") == 0 {
+			nb := v.Builder()
+			nb.Set(idx.ValidatorID(s.IDs[0]), 0)
+			nb.Set(idx.ValidatorID(s.IDs[n-1]), pos.Weight(1))
+			_ = nb.Build()
 		}
 		c := v.NewCounter()
 		counted := make([]bool, n)
